@@ -191,6 +191,21 @@ def run(F, R):
         R.check("C13-R6", "terminated-implies-task-terminated", bool(te) and not bad_, "is_terminated() == true only behind task.is_terminated() == true",
                 "is_terminated() can answer true while the task has not terminated (result set at %s without testing the task)" % bad_)
 
+    # ---------------------------------------------------------------- R7 the consumer's waker reaches both the task and the channel
+    R.rule("C13-R7", "Generator::poll_next polls the task and the item channel with the consumer's own task context (so whichever becomes ready wakes the consumer) and reads the channel in no other way")
+    pn = [b for b in c.bodies if b.get("item") == "poll_next" and (b.get("impl_self") or "").startswith("async_generator::Generator")]
+    if R.floor("C13-R7", "Stream::poll_next for Generator", len(pn), 1):
+        pv = BV.of(pn[0])
+        polls = [(bi, t) for bi, t in pv.calls() if t.get("name") in ("poll", "poll_next", "poll_unpin", "poll_next_unpin") and t.get("trait")]
+        other = [lib.norm(t.get("callee") or "") for _, t in pv.calls() if t.get("name") in ("try_recv", "try_next", "now_or_never", "next", "try_poll_next")]
+        cx_ok = []
+        for bi, t in polls:
+            ca = lib.strip_refs(pv.trace_op(t["args"][-1])) if t.get("args") else ("undef",)
+            cx_ok.append(ca == ("param", 2))
+        names_ = sorted(t["name"] for _, t in polls)
+        R.check("C13-R7", "polls-with-consumer-context", "poll" in names_ and "poll_next" in names_ and all(cx_ok) and not other, "task: Future::poll(cx); channel: Stream::poll_next(cx)",
+                "Generator::poll_next does not poll both the task and the channel with the consumer's context (polls: %s with own cx %s; other channel reads: %s): a wake-up can be lost" % (names_, cx_ok, other))
+
 
 def _mentions(x, l):
     if isinstance(x, dict):
